@@ -414,6 +414,7 @@ RULES = {
 
 
 DOTALL = ("inner_macro_def", "mismatch_debug", "offered_let")
+JSON_DOTALL = []      # rules declared in fn_targets/*.json (always re.S)
 
 
 def make_rewriter(rel, plan):
@@ -450,7 +451,7 @@ def make_rewriter(rel, plan):
                 def sub(m):
                     out = m.expand(repl)
                     return out + "\n" * (m.group(0).count("\n") - out.count("\n"))
-                seg, n = re.subn(rx, sub, seg, flags=re.S if rn in DOTALL else 0)
+                seg, n = re.subn(rx, sub, seg, flags=re.S if (rn in DOTALL or rn in JSON_DOTALL) else 0)
                 if (want is None and n < 1) or (want is not None and n != want):
                     bad = "normalisation rule %r applies %d times in %s (declared: %s)" % (rn, n, name, want or "at least once"); break
                 log.append(("%s in %s: %s" % (rn, name, RULES[rn][2]), n))
@@ -475,6 +476,16 @@ def load_targets():
     def add(d, origin):
         d = dict(d)
         d["fns"] = [tuple(x) for x in d.get("fns", [])]
+        # JSON form of the normalisation plan (b1315, additive): "rules" = {name: [regex, replacement, why, count?]} are
+        # added to RULES (an existing name is never replaced; a regex is applied with re.S), "normalise" =
+        # {"Impl::fn": [rule names]} becomes the {(impl, fn): [...]} plan of make_rewriter.
+        for rn, rv in (d.get("rules") or {}).items():
+            if rn in RULES and tuple(RULES[rn]) != tuple(rv):
+                raise ExtractError("x_fn: %s: normalisation rule %r is already defined differently" % (origin, rn))
+            RULES[rn] = tuple(rv)
+            if rn not in JSON_DOTALL: JSON_DOTALL.append(rn)
+        if isinstance(d.get("normalise"), dict):
+            d["normalise"] = {(tuple(k.split("::", 1)) if isinstance(k, str) else k): v for k, v in d["normalise"].items()}
         if d["area"] not in by:
             d.setdefault("consts", []); d.setdefault("structs", []); d.setdefault("externals", {}); d.setdefault("foreign_structs", {})
             d["consts"], d["structs"] = list(d["consts"]), list(d["structs"])
